@@ -34,8 +34,8 @@ var (
 	one   = big.NewInt(1)
 	two   = big.NewInt(2)
 	three = big.NewInt(3)
-	pM2   = new(big.Int).Sub(P, two)                                   // p-2
-	pP1d4 = new(big.Int).Rsh(new(big.Int).Add(P, one), 2)              // (p+1)/4
+	pM2   = new(big.Int).Sub(P, two)                                          // p-2
+	pP1d4 = new(big.Int).Rsh(new(big.Int).Add(P, one), 2)                     // (p+1)/4
 	p2f   = new(big.Int).Sub(new(big.Int).Lsh(one, 256), hexInt("1000003D1")) // 2^256-2^32-977
 )
 
